@@ -40,6 +40,22 @@ XML = """<mujoco><option timestep="0.004"/><size nuserdata="2"/><worldbody>
   </keyframe>
 </mujoco>"""
 
+XML_MOCAP = """<mujoco><option timestep="0.004"/><worldbody>
+  <body name="m0" mocap="true" pos="0.3 0 0.6"><geom size="0.03" contype="0" conaffinity="0"/></body>
+  <body name="m1" mocap="true" pos="-0.3 0 0.6" quat="0.6 0.8 0 0"><geom size="0.03" contype="0" conaffinity="0"/></body>
+  <body name="m2" mocap="true" pos="0 0.3 0.7"><geom size="0.03" contype="0" conaffinity="0"/></body>
+  <body name="m3" mocap="true" pos="0 -0.3 0.7"><geom size="0.03" contype="0" conaffinity="0"/></body>
+  <body name="p" pos="0 0 0.5"><joint name="s" type="slide" axis="0 0 1"/><geom size="0.05"/></body></worldbody>
+  <equality><weld body1="m0" body2="p" solref="0.05 1"/></equality>
+  <actuator><motor joint="s"/></actuator>
+  <keyframe>
+    <key name="k0" time="0.5" qpos="0.1" qvel="0.2" ctrl="0.5" mpos="0.1 0.1 0.9 0.2 0.2 0.8 0.3 0.3 0.7 0.4 0.4 0.6" mquat="0.6 0.8 0 0 0 1 0 0 0.5 0.5 0.5 0.5 0 0 1 0"/>
+    <key name="k1" time="1.25" qpos="-0.2" qvel="0.3" ctrl="-0.2" mpos="-0.2 0.3 0.5 0 0 1 1 0 0 0 1 0" mquat="0 1 0 0 0.6 0 0.8 0 1 0 0 0 0.5 -0.5 0.5 0.5"/>
+    <key name="k2" time="2.0" qpos="0.3" qvel="-0.2" ctrl="0.9" mpos="0 0 1.2 0.5 0.5 0.5 -0.5 0.5 0.5 0.5 -0.5 0.5" mquat="0.5 -0.5 0.5 0.5 0.8 0.6 0 0 0 0 0.6 0.8 1 0 0 0"/>
+  </keyframe>
+</mujoco>"""
+MODELS = {"full": XML, "mocap4": XML_MOCAP}  # mocap4: more mocap bodies than max(nq, nu, na)
+
 OPS = {"step_a": c13.OPS["step_a"], "dirty_inputs": c13.OPS["dirty_inputs"], "kick": c13.OPS["kick"]}
 ALPHABET = list(OPS)
 KEY_ARRAYS = [list(k) for k in itertools.product([-1, 0, 2, 3], repeat=NW)]
@@ -52,20 +68,23 @@ def scenarios(tier, seed):
   out = []
   for h in hs:
     for ki in range(len(KEYS)):
-      out.append(dict(history=h, key=ki, k=2 if tier == "quick" else 3))
+      out.append(dict(model="full", history=h, key=ki, k=2 if tier == "quick" else 3))
+  for h in hs[:2] if tier == "quick" else hs:
+    for ki in range(len(KEYS)):
+      out.append(dict(model="mocap4", history=h, key=ki, k=2))
   return out
 
 
 _M = {}
 
 
-def _model():
+def _model(name="full"):
   import mujoco_warp as mjw
 
-  if "m" not in _M:
-    mjm = util.load(XML)
-    _M["m"] = (mjm, mjw.put_model(mjm))
-  return _M["m"]
+  if name not in _M:
+    mjm = util.load(MODELS[name])
+    _M[name] = (mjm, mjw.put_model(mjm))
+  return _M[name]
 
 
 def _dirty(mjm, m, h):
@@ -84,7 +103,7 @@ def execute(scn):
 
   import mujoco_warp as mjw
 
-  mjm, m = _model()
+  mjm, m = _model(scn.get("model", "full"))
   c = util.Cmp()
   h = scn["history"]
   kind, key = KEYS[scn["key"]]
